@@ -177,6 +177,41 @@ func init() {
 		Body: restartWord(2, true),
 	})
 	eng.Register(&eng.Scenario{
+		Name: "keyed-reset-nilroutine", Props: []string{"C07"}, ObsNames: stdObs,
+		Doc:   "Keyed whose constructor returns a nil routine for its second construction: SetKey(a); ResetRoutine(a) (nil routine: nothing runs); then ResetRoutine(a) or RestartRoutine(a) or SetContext(fresh,true) (choice) - the third construction may not overlap the first instance, which is still returning",
+		Quick: eng.Bounds{PB: 2}, Thorough: eng.Bounds{PB: 3},
+		Body: func() {
+			k := keyed.NewKeyed(func(key string) (keyed.Routine, int) {
+				n := int(vsched.CtrAdd(kCtors, 1))
+				if n == 2 {
+					return nil, n
+				}
+				return func(ctx context.Context) error {
+					return keyedInstance(ctx, key, iUntilCancelled)
+				}, n
+			})
+			k.SetContext(bg, false)
+			k.SetKey("a", true)
+			if vsched.Choose(2) == 1 {
+				vsched.Settle()
+			}
+			k.ResetRoutine("a")
+			switch vsched.Choose(3) {
+			case 0:
+				k.ResetRoutine("a")
+			case 1:
+				k.RestartRoutine("a")
+				k.ResetRoutine("a")
+			case 2:
+				k.SetContext(context.WithValue(bg, ctxKey{}, 1), true)
+				k.ResetRoutine("a")
+			}
+			vsched.Settle()
+			k.ClearContext()
+			vsched.Settle()
+		},
+	})
+	eng.Register(&eng.Scenario{
 		Name: "keyed-restart-pb", Props: []string{"C07"}, ObsNames: stdObs,
 		Doc:   "Keyed: SetContext; SetKey(a); words of length 2 over the same alphabet, preemption-bounded (all free orders of the spawned goroutines)",
 		Quick: eng.Bounds{PB: 1}, Thorough: eng.Bounds{PB: 2},
